@@ -62,6 +62,12 @@ func TestVerifC18Regression(t *testing.T) {
 		{name: "finding-A-include-deep", tree: []*vNodeC18{dir("a", dir("b", file("f", 101, 1)))},
 			pre:  []vPreC18{{Path: "a", Kind: "symlink", Arg: "../outside", Outside: true, AtDir: true}},
 			opts: vOptsC18{Filter: "include", Patterns: []string{"/a/b/f"}}},
+		{name: "finding-A2-selected-dir-below-symlink", tree: []*vNodeC18{dir("a", dir("b"))},
+			pre:  []vPreC18{{Path: "a", Kind: "symlink", Arg: "../outside/x", Outside: true, AtDir: true}},
+			opts: vOptsC18{Filter: "include", Patterns: []string{"/a/b"}}},
+		{name: "finding-A3-leavedir-chmod-through-symlink", tree: []*vNodeC18{dir("a", dir("b"))},
+			pre:  []vPreC18{{Path: "a", Kind: "symlink", Arg: "../outside/victim", Outside: true, AtDir: true}},
+			opts: vOptsC18{Filter: "include", Patterns: []string{"/a/b"}}},
 		{name: "finding-B-hardlink-chmod", tree: []*vNodeC18{file("a", 1, 2), file("b", 1, 2)},
 			pre: []vPreC18{{Path: "a", Kind: "symlink", Arg: "../outside/victim", Outside: true, AtNode: true, MTimeOff: 3}}},
 	}
